@@ -167,3 +167,88 @@ pub fn fits(p: &Program, sigs: &[Sig]) -> Result<(), String> {
     }
     Ok(())
 }
+
+/// What C18 says about `vars()` at a row, as far as it follows from the text alone (no
+/// knowledge of how often loops run): the names that *can* be in scope there, and - for rows
+/// outside every loop - names whose value is fixed by a constant top-level `let` that no
+/// `let` outside a loop body changes before the row.
+#[derive(Debug, Clone, Default)]
+pub struct RowScope {
+    pub names: HashSet<String>,
+    pub outside_loops: bool,
+    pub fixed: Vec<(String, i64)>,
+}
+
+pub fn row_scopes(p: &Program) -> std::collections::HashMap<usize, RowScope> {
+    struct S {
+        frames: Vec<HashSet<String>>,
+        /// top-frame names -> Some(constant) / None (not a known constant)
+        top: Vec<(String, Option<i64>)>,
+        out: std::collections::HashMap<usize, RowScope>,
+    }
+    fn const_of(e: &Expr) -> Option<i64> {
+        match e {
+            Expr::Num(v, _) => Some(*v),
+            Expr::Group(x) => const_of(x),
+            _ => None,
+        }
+    }
+    /// every name a `let` of this frame can bind (a frame persists over the iterations of its
+    /// loop and of the whiles in it, so textually later lets count too)
+    fn collect(items: &[Item], into: &mut HashSet<String>) {
+        for it in items {
+            match it {
+                Item::Let(n, _) => {
+                    into.insert(n.clone());
+                }
+                Item::While(_, inner) => collect(inner, into),
+                _ => {}
+            }
+        }
+    }
+    fn go(s: &mut S, items: &[Item], in_loop: bool, in_while: bool) {
+        for it in items {
+            match it {
+                Item::Let(n, e) => {
+                    if !in_loop {
+                        // a let in a top-level while body may or may not have run
+                        let v = if in_while { None } else { const_of(e) };
+                        if let Some(slot) = s.top.iter_mut().find(|(k, _)| k == n) {
+                            slot.1 = v;
+                        } else if !in_while {
+                            s.top.push((n.clone(), v));
+                        } else {
+                            s.top.push((n.clone(), None));
+                        }
+                    }
+                }
+                Item::Row(id, _) | Item::Repeat(id, _, _) => {
+                    let mut names: HashSet<String> = s.frames.iter().flatten().cloned().collect();
+                    if matches!(it, Item::Repeat(..)) {
+                        names.insert("n".into());
+                    }
+                    let fixed = if in_loop || in_while || matches!(it, Item::Repeat(..)) {
+                        vec![]
+                    } else {
+                        s.top.iter().filter_map(|(k, v)| v.map(|v| (k.clone(), v))).collect()
+                    };
+                    s.out.insert(*id, RowScope { names, outside_loops: !in_loop, fixed });
+                }
+                Item::Loop(v, _, inner) => {
+                    let mut f = HashSet::from([v.clone()]);
+                    collect(inner, &mut f);
+                    s.frames.push(f);
+                    go(s, inner, true, in_while);
+                    s.frames.pop();
+                }
+                Item::While(_, inner) => go(s, inner, in_loop, true),
+                Item::Declare(..) | Item::ResetRandom | Item::Blank | Item::Comment(_) => {}
+            }
+        }
+    }
+    let mut top = HashSet::new();
+    collect(&p.items, &mut top);
+    let mut s = S { frames: vec![top], top: vec![], out: Default::default() };
+    go(&mut s, &p.items, false, false);
+    s.out
+}
